@@ -12,6 +12,7 @@
   blank like `.define` values, `.endm` is recognised at the start of the text.
 -/
 import NakenVerif.Macro.Lexer
+import NakenVerif.Generated.MacroConsts
 
 namespace NakenVerif.Macro
 
@@ -70,7 +71,7 @@ def trimSpaces (mac : List Ch) : List Ch :=
 def macrosAppend (env : Env) (name value : List Ch) (pc : Nat) : Option MacroDef :=
   if (lookupDef env.defs name).isSome ∨ (lookupSym env.syms name).isSome then none
   else if name.length + 1 > 127 then none
-  else if name.length + 1 + (normText value).length + 1 + 4 > macrosHeapSize then none
+  else if name.length + 1 + (normText value).length + 1 + macroDataHeader > macrosHeapSize then none
   else some { name := name, params := pc % 256, text := normText value }
 
 def Env.addDef (env : Env) (d : Option MacroDef) : Env :=
